@@ -5,10 +5,12 @@ import (
 	"math"
 	"strings"
 
+	"github.com/yorkie-team/yorkie/api/converter"
 	"github.com/yorkie-team/yorkie/api/types"
 	"github.com/yorkie-team/yorkie/client"
 	"github.com/yorkie-team/yorkie/pkg/document"
 	"github.com/yorkie-team/yorkie/pkg/document/change"
+	"github.com/yorkie-team/yorkie/pkg/document/crdt"
 	"github.com/yorkie-team/yorkie/pkg/document/json"
 	"github.com/yorkie-team/yorkie/pkg/document/presence"
 	"github.com/yorkie-team/yorkie/pkg/key"
@@ -39,6 +41,7 @@ type Behaviour struct {
 	Steps     []Step   `json:"steps"`
 	Final     string   `json:"final"` // "quiesce" | ""
 	Family    string   `json:"family"`
+	Guards    []string `json:"guards"` // extra known-finding guards for this behaviour
 }
 
 func optBool(m map[string]any, k string) bool {
@@ -167,9 +170,10 @@ func (w *World) emitHooks(step int, rpc string) error {
 // RefDoc is a passive, change-fed, never-garbage-collected replica kept in the
 // same run (same actors, same tickets) as reference for C02/C03.
 type RefDoc struct {
-	Doc   *document.InternalDocument
-	Seq   int64
-	Epoch int64
+	Doc    *document.InternalDocument
+	Direct *document.InternalDocument // fed the ORIGINAL in-memory changes (no wire, no storage encoding)
+	Seq    int64
+	Epoch  int64
 }
 
 // feedRefs advances the reference replica of every document to the log head,
@@ -182,7 +186,8 @@ func (w *World) feedRefs(step int) error {
 		}
 		ref := w.refs[d]
 		if ref == nil || ref.Epoch != info.Epoch || ref.Doc == nil {
-			ref = &RefDoc{Doc: document.NewInternalDocument(key.Key(w.DocKeys[d])), Epoch: info.Epoch}
+			ref = &RefDoc{Doc: document.NewInternalDocument(key.Key(w.DocKeys[d])),
+				Direct: document.NewInternalDocument(key.Key(w.DocKeys[d])), Epoch: info.Epoch}
 			w.refs[d] = ref
 		}
 		for ref.Seq < info.ServerSeq {
@@ -201,6 +206,35 @@ func (w *World) feedRefs(step int) error {
 			ref.Seq = next
 			ev["content"] = ref.Doc.Marshal()
 			ev["pres"] = w.PresString(ref.Doc.AllPresences())
+			// C09: the same row, but the original change object as the author made it
+			ev["dcontent"], ev["dok"] = "", true
+			if len(chs) == 1 && ref.Direct != nil {
+				feed := chs
+				if orig := w.origChange(d, chs[0]); orig != nil {
+					feed = []*change.Change{orig}
+					ev["dorig"] = true
+				} else {
+					ev["dorig"] = false
+				}
+				if err := ref.Direct.ApplyChangePack(change.NewPack(key.Key(w.DocKeys[d]),
+					change.InitialCheckpoint.NextServerSeq(next), feed, nil, nil), true); err != nil {
+					ev["dok"], ev["derr"] = false, errClass(err)
+					ref.Direct = nil
+				} else {
+					ev["dcontent"] = ref.Direct.Marshal()
+					ev["dgarbage"] = ref.Direct.GarbageLen()
+				}
+			}
+			ev["garbage"] = 0
+			if ref.Doc != nil {
+				ev["garbage"] = ref.Doc.GarbageLen()
+				// C18: YSON round trip of the reference at this prefix
+				yok, yb, ya, yerr := YsonRoundTrip(ref.Doc.RootObject())
+				ev["yson_ok"], ev["yson_before"], ev["yson_after"], ev["yson_err"] = yok, yb, ya, yerr
+				// C09: snapshot bytes round trip
+				sok, sc, sg, serr := SnapshotRoundTrip(ref.Doc)
+				ev["snap_ok"], ev["snap_content"], ev["snap_garbage"], ev["snap_err"] = sok, sc, sg, serr
+			}
 			w.T.Emit(ev)
 			if ev["ok"] == false {
 				ref.Doc = nil
@@ -237,8 +271,10 @@ func (w *World) docInfoOf(d string) *database.DocInfo {
 
 // Run executes one behaviour and writes its trace.
 func (w *World) Run(b *Behaviour) error {
-	ex := &Executor{W: w, B: b, opCtr: map[string]int{}}
-	_ = ex
+	ExtraGuards = map[string]bool{}
+	for _, g := range b.Guards {
+		ExtraGuards[g] = true
+	}
 	if err := w.SetProjectSnapshot(b.Threshold, b.Interval); err != nil {
 		return err
 	}
@@ -541,6 +577,9 @@ func (w *World) Step(no int, st Step, b *Behaviour) error {
 	default:
 		return fmt.Errorf("unknown step action %q", st.A)
 	}
+	if rep != nil && (st.A == "edit" || st.A == "setup" || st.A == "undo" || st.A == "redo") {
+		w.captureChanges(st.D, rep)
+	}
 	// server-side events first (they happened before the call returned)
 	if err := w.emitHooks(no, st.A); err != nil {
 		return err
@@ -555,3 +594,41 @@ func (w *World) Step(no int, st Step, b *Behaviour) error {
 }
 
 var _ = json.NewObject
+
+
+// origChange finds the original in-memory change object of a stored row.
+func (w *World) origChange(d string, stored *change.Change) *change.Change {
+	k := fmt.Sprintf("%s/%s/%d/%d", d, stored.ID().ActorID().String(), stored.ID().ClientSeq(), stored.ID().Lamport())
+	return w.orig[k]
+}
+
+// captureChanges remembers the pending change objects of a replica.
+func (w *World) captureChanges(d string, rep *Rep) {
+	if w.orig == nil {
+		w.orig = map[string]*change.Change{}
+	}
+	for _, c := range rep.D.CreateChangePack().Changes {
+		k := fmt.Sprintf("%s/%s/%d/%d", d, c.ID().ActorID().String(), c.ID().ClientSeq(), c.ID().Lamport())
+		if _, ok := w.orig[k]; !ok {
+			w.orig[k] = c
+		}
+	}
+}
+
+// SnapshotRoundTrip encodes and decodes the document as a snapshot.
+func SnapshotRoundTrip(doc *document.InternalDocument) (ok bool, content string, garbage int, errs string) {
+	defer func() {
+		if p := recover(); p != nil {
+			ok, errs = false, fmt.Sprintf("PANIC:%v", p)
+		}
+	}()
+	bs, err := converter.SnapshotToBytes(doc.RootObject(), doc.AllPresences())
+	if err != nil {
+		return false, "", 0, err.Error()
+	}
+	obj, _, err := converter.BytesToSnapshot(bs)
+	if err != nil {
+		return false, "", 0, err.Error()
+	}
+	return true, obj.Marshal(), crdt.NewRoot(obj).GarbageLen(), ""
+}
